@@ -388,7 +388,7 @@ pub fn plan(property: &str, tier: Tier) -> Option<Plan>
         }
         "C05" =>
         {
-            let ns: &[u32] = if q { &[3] } else { &[3, 4, 5] };
+            let ns: &[u32] = if q { &[3, 4] } else { &[4, 5, 6] };
             for &n in ns
             {
                 let mut c = Config::base(&format!("C05/faults/N{n}"));
@@ -454,7 +454,8 @@ pub fn plan(property: &str, tier: Tier) -> Option<Plan>
                     else
                     {
                         // C06: multi-trigger bundles (pairs across kinds / same kind, a triple)
-                        let mut b: Vec<Bundle> = vec![Bundle::one(trigs2[0]), Bundle::two(trigs2[0], trigs2[1]), Bundle::two(trigs2[2], trigs2[3])];
+                        let mut b: Vec<Bundle> = vec![Bundle::one(trigs2[0]), Bundle::two(trigs2[0], trigs2[1]), Bundle::two(trigs2[2], trigs2[3]),
+                            Bundle::three(trigs2[0], trigs2[1], trigs2[0])];
                         b.push(Bundle::three(trigs2[0], trigs2[2], Trig::Despawn(1)));
                         b
                     };
@@ -550,6 +551,8 @@ pub fn plan(property: &str, tier: Tier) -> Option<Plan>
                     Bundle::two(Trig::Despawn(0), Trig::Despawn(1)),
                     Bundle::two(Trig::EntityEvent(Ev::A, 0), Trig::Despawn(1)),
                     Bundle::two(Trig::Broadcast(Ev::A), Trig::ResMut),
+                    // the same trigger twice in one bundle: two registrations, one token names both
+                    Bundle::three(Trig::Broadcast(Ev::A), Trig::ResMut, Trig::Broadcast(Ev::A)),
                 ];
                 c.top = Arc::new(move |i: &DynInfo| {
                     let mut v = Vec::new();
@@ -654,7 +657,7 @@ pub fn plan(property: &str, tier: Tier) -> Option<Plan>
         {
             for update in [false, true]
             {
-                let ds: &[u32] = if q { &[4] } else { &[4, 5, 6] };
+                let ds: &[u32] = if q { if update { &[3] } else { &[4] } } else { &[4, 5, 6] };
                 for &d in ds
                 {
                     let mut c = Config::base(&format!("C08/{}/D{d}", if update { "frames" } else { "flush" }));
@@ -671,7 +674,7 @@ pub fn plan(property: &str, tier: Tier) -> Option<Plan>
                             Op::Insert(Comp::A, 0, 1), Op::Insert(Comp::A, 1, 1),
                             Op::RemoveComp(Comp::A, 0), Op::RemoveComp(Comp::A, 1),
                             Op::Despawn(0), Op::Despawn(1), Op::DespawnRecursive(0),
-                            Op::Run(0), Op::Run(1),
+                            Op::Run(0), Op::Run(1), Op::Clear(1),
                         ];
                         if !update { v.push(Op::Poll); }
                         if i.n_actors < 3 { v.push(Op::RegisterNew(Variant::Plain, Bundle::two(Trig::Removal(Comp::A), Trig::Despawn(1)), Mode::Cleanup)); }
@@ -686,6 +689,41 @@ pub fn plan(property: &str, tier: Tier) -> Option<Plan>
                     c.final_gc = !update;
                     c.max_runs = 200;
                     items.push(item(c, if update { "frames" } else { "flush" }, &format!("D={d}")));
+                }
+            }
+            // real frames: operations issued by plain Bevy systems of the Update schedule (chained with sync points, or
+            // unordered with deferred commands applied together), polled by the Last schedule of the same update
+            for chained in [true, false]
+            {
+                let fs: &[u32] = if q { &[1] } else { &[1, 2] };
+                for &f in fs
+                {
+                    let mut c = Config::base(&format!("C08/systems-{}/F{f}", if chained { "chained" } else { "unordered" }));
+                    c.actors = vec![Variant::Plain, Variant::Plain];
+                    c.n_ents = 2;
+                    c.children = vec![(1, 0)];
+                    c.setup = vec![
+                        Op::Insert(Comp::A, 0, 0), Op::Insert(Comp::A, 1, 0),
+                        Op::Register(0, Bundle::two(Trig::Removal(Comp::A), Trig::Despawn(0)), Mode::Persistent),
+                        Op::Register(1, Bundle::three(Trig::EntityRemoval(Comp::A, 0), Trig::Despawn(0), Trig::Despawn(1)), Mode::Persistent),
+                    ];
+                    let alpha: AlphabetFn = Arc::new(move |_i: &DynInfo| {
+                        vec![
+                            Op::Insert(Comp::A, 0, 1), Op::Insert(Comp::A, 1, 1),
+                            Op::RemoveComp(Comp::A, 0), Op::RemoveComp(Comp::A, 1),
+                            Op::Despawn(0), Op::Despawn(1), Op::DespawnRecursive(0), Op::Clear(1),
+                            Op::Run(0), Op::Run(1),
+                        ]
+                    });
+                    c.top = alpha.clone();
+                    c.script = alpha;
+                    c.frame = Some((3, chained));
+                    c.max_top = f;
+                    c.budget = 3 * f + 1;
+                    c.max_per_run = 1;
+                    c.update_after_top = true;
+                    c.max_runs = 200;
+                    items.push(item(c, if chained { "systems-chained" } else { "systems-unordered" }, &format!("F={f}")));
                 }
             }
             // no type-wide reactor for the component at all: only entity-scoped removal reactors
@@ -764,7 +802,17 @@ pub fn plan(property: &str, tier: Tier) -> Option<Plan>
                     {
                         v.push(Op::ResMutate(how));
                     }
+                    // body-time accessors (only meaningful inside a system body)
+                    if let Where::Script(_, _) = i.at
+                    {
+                        for e in 0..2u8
+                        {
+                            for how in [How::GetMut, How::SetIfNeq(0), How::SetIfNeq(1), How::NoReact(0)] { v.push(Op::MutateNow(e, how)); }
+                        }
+                    }
                     v.push(Op::Despawn(1));
+                    v.push(Op::Despawn(0));
+                    v.push(Op::RemoveComp(Comp::A, 0));
                     v.push(Op::Run(0));
                     v
                 });
@@ -776,7 +824,8 @@ pub fn plan(property: &str, tier: Tier) -> Option<Plan>
                 c.max_runs = 300;
                 items.push(item(c, "accessors", &format!("N={n}")));
             }
-            reports = vec!["C14"];
+            // the registrations of this universe are fixed, so a dispatch-count mismatch is a trigger-count mismatch
+            reports = vec!["C14", "C01"];
             rule = "every accessor of reactive components and resources (get_mut, set_if_neq with equal / different value, \
                 get_noreact, read, trigger_mutation / trigger_resource_mutation) and ReactCommands::insert on an entity \
                 that is alive, has / lacks the component, or is despawned between queuing and applying, 1..3 calls per \
@@ -832,7 +881,9 @@ pub fn plan(property: &str, tier: Tier) -> Option<Plan>
                 c.final_gc = true;
                 items.push(item(c, "stale", &format!("N={n}")));
             }
-            reports = vec!["C18"];
+            // in this universe every operation names a target that may be stale: an unreleased payload, leftover
+            // bookkeeping or an undischarged command for a dead target is a stale reference that was not harmless
+            reports = vec!["C18", "C05", "C11", "C02"];
             rule = "fault enumeration: every public operation naming a system, reactor or entity (run, system event, \
                 entity event, insert, mutate, trigger, remove, register existing / new reactor with entity triggers, \
                 revoke) combined with despawns of its target before it is queued, between queuing and applying, after \
